@@ -238,6 +238,7 @@ func checkC20(ctx *Ctx) {
 	}
 	replayBash(ctx, cli, root)
 	replayBashFanIn(ctx, cli, root)
+	replayBashJoin(ctx, cli, root)
 }
 
 func stripIDs(ids []string) []string {
@@ -370,6 +371,60 @@ func replayBashFanIn(ctx *Ctx, cli, root string) {
 	got, _ := ioutil.ReadFile(filepath.Join(fresh, "merged.txt"))
 	if err != nil || string(want) != string(got) || len(want) == 0 {
 		ctx.Res.Violate(Violation{What: fmt.Sprintf("the Bash script generated for a two-input task does not re-create merged.txt: got %q, want %q (script output: %s)", got, want, tail(string(out))), Class: "c20.replay-differs", Witness: "fan-in: cat {i:x} {i:y} {i:x} > {o:out}"})
+	}
+}
+
+// the same for a task with a joined in-port: the script must re-create the producers of every member of the sub-stream
+func replayBashJoin(ctx *Ctx, cli, root string) {
+	dir := filepath.Join(root, "replayjoin")
+	os.MkdirAll(dir, 0755)
+	src := map[string]string{"m0.txt": "zero\n", "m1.txt": "one\n", "m2.txt": "two\n"}
+	for p, c := range src {
+		ioutil.WriteFile(filepath.Join(dir, p), []byte(c), 0644)
+	}
+	d := &Desc{Name: "join", Max: 2, Nodes: []Node{
+		{Name: "s", Kind: "filesource", Paths: []string{"m0.txt", "m1.txt", "m2.txt"}},
+		{Name: "up", Kind: "proc", Cmd: "cat {i:in} > {o:out} && echo up >> {o:out}", Outs: map[string]string{"out": "{i:in}.up.txt"}},
+		{Name: "sts", Kind: "substream"},
+		{Name: "merge", Kind: "proc", Cmd: "cat {i:in|join: } > {o:out}", Outs: map[string]string{"out": "joined.txt"}}},
+		Edges: []Edge{{From: "s.out", To: "up.in"}, {From: "up.out", To: "sts.in"}, {From: "sts.substream", To: "merge.in"}}}
+	rr := RunWorkflow(d, RunOpts{Dir: dir})
+	ctx.Res.Eval("replay-join", true, "replay of a workflow with a joined in-port")
+	ctx.Res.Count("bash-replay")
+	if rr.Exit != 0 {
+		ctx.Res.Disagree(Violation{What: "join replay workflow failed: " + tail(rr.Stderr), Witness: "join"})
+		return
+	}
+	if out, err := runCLI(cli, dir, "audit2bash", "joined.txt.audit.json"); err != nil {
+		ctx.Res.Violate(Violation{What: "audit2bash failed: " + tail(out), Class: "c20.cli-failed", Witness: "join"})
+		return
+	}
+	fresh := filepath.Join(root, "freshjoin")
+	os.MkdirAll(fresh, 0755)
+	for p, c := range src {
+		ioutil.WriteFile(filepath.Join(fresh, p), []byte(c), 0644)
+	}
+	script, _ := ioutil.ReadFile(filepath.Join(dir, "joined.txt.audit.sh"))
+	ioutil.WriteFile(filepath.Join(fresh, "replay.sh"), script, 0755)
+	c := exec.Command("bash", "replay.sh")
+	c.Dir = fresh
+	out, err := c.CombinedOutput()
+	want, _ := ioutil.ReadFile(filepath.Join(dir, "joined.txt"))
+	got, _ := ioutil.ReadFile(filepath.Join(fresh, "joined.txt"))
+	if err != nil || string(want) != string(got) || len(want) == 0 {
+		ctx.Res.Violate(Violation{What: fmt.Sprintf("the Bash script generated for a task with a joined in-port does not re-create joined.txt: got %q, want %q (script output: %s)", got, want, tail(string(out))), Class: "c20.replay-differs", Witness: "join: cat {i:in|join: } > {o:out}"})
+	}
+	// and the HTML report lists the producer of every member
+	if out, err := runCLI(cli, dir, "audit2html", "joined.txt.audit.json"); err == nil {
+		html, _ := ioutil.ReadFile(filepath.Join(dir, "joined.txt.audit.html"))
+		for p := range src {
+			if !strings.Contains(string(html), p+".up.txt") {
+				ctx.Res.Violate(Violation{What: "the HTML report of the joining task does not mention the task that produced " + p + ".up.txt", Class: "c20.report-incomplete", Witness: "join"})
+				break
+			}
+		}
+	} else {
+		ctx.Res.Violate(Violation{What: "audit2html failed: " + tail(out), Class: "c20.cli-failed", Witness: "join"})
 	}
 }
 
